@@ -242,7 +242,7 @@ def r114_body(ck, R, I):
                     v.args[1] if is_ext_call(v.args[2], "numpy.array") else v)
                 if v.op == "Phi" and not (is_ext_call(v.args[1], "numpy.array") or is_ext_call(v.args[2], "numpy.array")):
                     break
-            if any(x.op == "NdIter" for x in walk([v])) and sc.fn is not None and sc.fn.qualname == "Taus.tau_energy":
+            if any(x.op == "NdIter" for x in walk([v])) and sc.fn is not None and sc.fn.module.name.endswith("taus"):
                 b0, _ = scatter_chain(v)
                 ck.ob("R11.4", "the sampler returns the iterator's allocated operand (complete beyond the 8192-element "
                       "buffer)", b0.op == "NdAlloc", sc, "grid_cdf_sampler.sample", f"returns {g.show(b0, 1)}")
